@@ -277,7 +277,7 @@ _EXTRA = {
     'R83': (['C03', 'C05', 'C12', 'C20'], 'R83: _find_next skips POP data, stops at its first hit, and splits the pending data with the index of the loop that found the hit.'),
     'R84': (['C04'], 'R84: surface.alignments / role_alignments scan the whole marker list of a triple.'),
     'R85': (['C10', 'C20'], 'R85: the letter that becomes the variable prefix is chosen with str.isalpha (or a one-character pattern whose language is exactly that set).'),
-    'R58': (['C05'], 'R58: rearrange(attributes_first=True) tells attributes from edges with the variables of all nodes of the tree (t.nodes()), the top included.'),
+    'R58': (['C05', 'C12'], 'R58: rearrange(attributes_first=True) tells attributes from edges with the variables of all nodes of the tree (t.nodes()), the top included.'),
     'R14': (['C10'], 'R14 (E4): nodes(), format, interpret and the other read-only calls on a tree do not write to it (a cache written by a query goes stale when the tree is rearranged, and relabelling then numbers the old order).'),
     'R14r': (['C17', 'C13', 'C20'], 'R14r (E4): the tree returned by canonicalize_roles / configure / reconfigure / parse contains no list object of an argument (the points-to closure of the result is disjoint from the parameters\' lists), so the in-place operations on the result cannot reach the original.'),
     'R88': (['C01', 'C02', 'C03', 'C09', 'C11', 'C12', 'C15', 'C16', 'C20'], 'R88: a constructor stores what it is given (reaching definitions: the parameter itself reaches self.x) and every Graph / Tree built from a graph or tree argument is given that argument\'s metadata.'),
@@ -301,7 +301,7 @@ _EXTRA = {
     'R105': (['C20', 'C16'], 'R105: _get_model binds each model exactly in its documented case (facts on --amr / --noop / --model), _indent maps the words to None, numbers through int(), rejects exactly values below -1 and defaults to -1, process chooses format_triples / format by the triples flag and formats the result of _process_out, and main feeds every process() status into the exit status (accumulating inside the file loop).'),
     'R106': (['C09', 'C20', 'C17'], 'R106: a stream parameter (or a plain alias of it, by reaching definitions) is never the subject of `with`, `.close()` or a sized `read`/`readline`.'),
     'R107': (['C18'], 'R107: the condition of the "unbalanced quotes" error is, as a propositional formula over startswith(quote) / endswith(quote), exactly their exclusive or (no further atom).'),
-    'R6': (['C01'], 'R6: a text is split into lines at LF, CRLF and CR only (str.splitlines would also cut inside quoted strings and comments at VT, FF, NEL, LS, PS).'),
+    'R6': (['C01', 'C20'], 'R6: a text is split into lines at LF, CRLF and CR only (str.splitlines would also cut inside quoted strings and comments at VT, FF, NEL, LS, PS).'),
     'R13': (['C05'], 'R13: no set iteration order reaches an ordered result (key precedence of --rearrange must be the written order).'),
     'R24': (['C10', 'C11'], 'R24: in the tool the variables are renamed after the tree was rearranged (pipeline order).'),
     'R25': (['C11'], 'R25: --reify-edges and --dereify-edges each guard exactly their own step (both may be given).'),
@@ -309,7 +309,53 @@ _EXTRA = {
     'R11': (['C14'], 'R11: a variable reference is compared with the variable set after its alignment suffix was split off.'),
     'R32': (['C14'], 'R32: a value that is cast to Variable was tested to be one.'),
     'R90': (['C14'], 'R90: branch targets are taken apart only under the is_atomic test.'),
-    'R73': (['C19'], 'R73: optional context (a flag, a token) that a function holds under the same name as its callee\'s parameter is passed on.'),
+    'R73': (['C19', 'C14'], 'R73: optional context (a flag, a token) that a function holds under the same name as its callee\'s parameter is passed on.'),
+    'R109': (['C01', 'C02', 'C03', 'C04', 'C05', 'C07', 'C08', 'C09', 'C10', 'C11', 'C12', 'C13', 'C14', 'C15', 'C16', 'C17', 'C18', 'C19', 'C20'],
+             'R109: every name read in a function, class body or at module level is bound in that scope, an enclosing function, the module or the builtins (symbol-table scopes; '
+             'a name with no binding raises NameError on the path that reads it, where the property promises a result or a documented error).'),
+    'R110': (['C04', 'C02'],
+             'R110: in penman.layout every search for "~" in a role or atom starts at the beginning of the token, or behind a prefix that the lexer\'s ROLE/SYMBOL + ALIGNMENT '
+             'languages (E5 automata) show can never contain "~"; a witness token is reported otherwise.'),
+    'R111': (['C01', 'C07', 'C08', 'C09', 'C19'],
+             'R111: every constant character set passed to str.strip/rstrip/lstrip is free of backslash-letter pairs (the residue of an escape written in a raw string).'),
+    'R112': (['C02', 'C03', 'C10', 'C13'],
+             'R112: in penman.tree/layout/_format/transform a loop over a proper slice of a node\'s branch list stands under a test of the left-out branch (`branches[0][0] == "/"`), '
+             'or the left-out branches are read elsewhere in the function (then undecided); otherwise the skipped branch and everything nested under it is never visited.'),
+    'R113': (['C14'],
+             'R113: in node_contexts the membership test on the target of a triple is made against g.variables(); a set obtained from another Graph query '
+             '(reentrancies, edges, ...) is a proper subset and is reported with the shape of graph that loses its contexts.'),
+    'R114': (['C11', 'C12', 'C20'],
+             'R114: every membership test / subscript / .get on Model.reifications and Model.dereifications uses a key that is a parameter, an element of a parameter or an '
+             'unpacked element of one (through cast); a key that is the result of a call (canonicalize_role, lower, ...) is reported.'),
+    'R115': (['C16', 'C20'],
+             'R115: in process() no call that takes the checked graph (or an attribute of it) can reach the _check call within one loop iteration (CFG path search): '
+             'output objects are derived from the graph only after the check has written its report into the metadata.'),
+    'R116': (['C02', 'C03', 'C05', 'C12', 'C14', 'C20'],
+             'R116: an index that ranges over a filtered copy (a comprehension with an `if`, list(filter(...))) of a sequence is never used to subscript or slice the '
+             'unfiltered sequence; all `for i in range(len(A))` / enumerate(A) loops of the package are listed.'),
+    'R117': (['C05', 'C17', 'C20'],
+             'R117: no sorted()/list.sort() call orders (key(x), x) pairs without key= (a decorate-sort-undecorate that falls back to comparing the elements on ties: '
+             'not stable, and TypeError for elements of mixed type).'),
+    'R23model': (['C04', 'C02', 'C03'], 'R23model (sibling): Model.invert swaps source and target and inverts the role on every return path; a path that returns the argument unchanged is reported with its condition.'),
+    'R118': (['C08', 'C01', 'C07', 'C09', 'C19'],
+             'R118: in every loop over pattern.finditer(...) a loop-carried cursor set to m.start() + k is checked against the pattern\'s language (E5): all matches must be '
+             'k characters long, otherwise a witness match is reported.'),
+    'R120': (['C01', 'C09', 'C04', 'C02', 'C19', 'C20'],
+             'R120: every subscript or slice that uses the result of str.find/rfind stands under a condition on that result or on the presence of the searched text '
+             '(CFG facts); an unguarded use is reported (-1 silently means "last character").'),
+    'R1': (['C20'], 'R1 (sibling): interpret pairs triples with their markers first-statement-wins; dict(pairs) (last wins) is reported - the normal form of C20 depends on it.'),
+    'R121': (['C20', 'C05'],
+             'R121: the key tables handed to _make_sort_key fold to the documented key-name -> ordering tables (spec/cli.json key_tables), and every value names a Model method or a '
+             'keyword parameter of layout.rearrange / layout.reconfigure.'),
+    'R122': (['C20', 'C05'],
+             'R122: in penman.__main__ every local bound from normalize_options / format_options / args has a use that its definition reaches (reaching definitions on the CFG); '
+             'an option value that is unpacked and then dropped is reported.'),
+    'R123': (['C15', 'C02', 'C03'],
+             'R123: Graph.__init__ stores (source, _ensure_colon(role), target) for every input triple; when a helper builds the stored triple, each of its symbolic return paths '
+             'must have that shape (a path that passes the argument through unchanged is reported with its condition).'),
+    'R124': (['C14'],
+             'R124: in node_contexts the target of a triple becomes a candidate context only under `role != CONCEPT_ROLE` and membership in the variables (CFG facts at the append); '
+             'the stack top is recorded only under the established candidate test; the mismatch branch leaves the loop.'),
     'R108': (['C03', 'C05', 'C12', 'C20'], 'R108: in configure no path leads from the _find_next call back to the loop head without the list of passed-over data having been used.'),
     'R87': (['C20', 'C17'], 'R87: the option tables main() builds once are only read by process/_process_in/_process_out (alias-following over what is unpacked from them).'),
     'R86': (['C01', 'C07', 'C08', 'C09', 'C19', 'C20'], 'R86: an argument annotated as Iterable / Iterator / file is walked at most once on every path (a second walk of a file or generator finds nothing).'),
